@@ -677,3 +677,9 @@ B2("b49", ["C09", "C08", "C12", "C10"], [
    (VI, "        for _ in range(max_iterations):\n            self.iteration += 1\n            new_values, conv = self._iteration_step()\n            self.values = new_values\n\n            logger.info(\n                f\"Iteration {self.iteration}: {self._convergence_desc}",
         "        self._sweeps_timed = getattr(self, \"_sweeps_timed\", 0)\n        for _ in range(max_iterations):\n            self.iteration += 1\n            new_values, conv = self._iteration_step()\n            self.values = new_values\n            self._sweeps_timed = self._sweeps_timed + 1\n\n            logger.info(\n                f\"Iteration {self.iteration}: {self._convergence_desc}", None)],
    "a bookkeeping counter carried between sweeps that never influences results, stopping or saving (not checkpointed on purpose)")
+M("m131", "C20", "R20.12", SOLVER, "        self.gamma = jnp.array(self.config.gamma)", "        self.gamma = jnp.array(self.config.gamma or 1.0)",
+  "gamma or 1.0: the valid gamma = 0 becomes 1 (positive example of the zero-count truthiness rule; seeded S53)")
+M("m132", "C02", "R2.7", SOLVER, "        self.gamma = jnp.array(self.config.gamma)", "        self.gamma = jnp.array(min(self.config.gamma, 0.999))",
+  "discount factor silently capped")
+M("m133", "C20", "R20.13", "src/mdpax/utils/batch_processing.py", "        max_batch_size: int = 1024,\n        pmap_device_count: Int[Array, \"\"] = None,", "        max_batch_size: int = 1024,\n        pmap_device_count: Int[Array, \"\"] = None,\n        _cache: dict = {},",
+  "mutable default argument (positive example of the zero-count rule)")
